@@ -28,8 +28,8 @@ def corpus_schemas() -> List[G.Schema]:
     m2.fields = [G.Field("b", 9, G.TBool()), G.Field("h", 2, G.TArray(G.TRef(a16), 5, False)),
                  G.Field("o", 3, G.TArray(G.TRef(a8), 7, True)), G.Field("g", 1, G.TArray(G.TRef(a64), 2, False)),
                  G.Field("l", 4, G.TArray(G.TRef(e8), 4, False)), G.Field("t", 5, G.TArray(G.TRef(e24), 3, False)),
-                 G.Field("i24", 6, G.TArray(G.TInt(24), 3, False)), G.Field("u40", 7, G.TArray(G.TUint(40), 2, True)),
-                 G.Field("i56", 8, G.TArray(G.TInt(56), 2, False))]
+                 G.Field("itw", 6, G.TArray(G.TInt(24), 3, False)), G.Field("ufo", 7, G.TArray(G.TUint(40), 2, True)),
+                 G.Field("ifs", 8, G.TArray(G.TInt(56), 2, False))]
     out.append(G.Schema("batchcase", [a16, a8, a64, e8, e24, m2]))
     # nested extensible messages inside extensible arrays, out-of-order field numbers
     inner = G.MsgDef("Inner", True)
